@@ -124,18 +124,12 @@ Proof. exists (IClass k_UCallable). vm_compute. repeat split. Qed.
 Theorem C17_refuted_raw_generic : exists t,
   runtime_says tbl P_ispatterntype t = Some true /\ chain_ok t = true /\ run_pred tbl P_ispatterntype t = Ok false.
 Proof. exists (ITypingSub al_Pattern [IClass c_str]). vm_compute. repeat split. Qed.
-(* spelling dependence with a cold cache: string-based issubscriptedgeneric, None-last isstdlibtype *)
+(* spelling dependence with a cold cache: string-based issubscriptedgeneric *)
 Theorem C17_refuted_spelling_subscripted : exists a b,
   spell tbl a b /\ run_pred tbl P_issubscriptedgeneric a <> run_pred tbl P_issubscriptedgeneric b.
 Proof.
   exists (IUnion UOptional [IClass c_int; IClass c_NoneType]), (IUnion UPipe [IClass c_int; IClass c_NoneType]).
   split; [apply sp_union; repeat constructor | vm_compute; discriminate].
-Qed.
-Theorem C17_refuted_stdlib_none_first : exists a b,
-  key_eq a b = true /\ run_pred tbl P_isstdlibtype a <> run_pred tbl P_isstdlibtype b.
-Proof.
-  exists (IUnion UPipe [IClass c_NoneType; IClass k_UData]), (IUnion UPipe [IClass k_UData; IClass c_NoneType]).
-  split; [vm_compute; reflexivity | vm_compute; discriminate].
 Qed.
 (* not stable across calls: whichever of two ==-equal spellings is asked first fixes the answer *)
 Theorem C17_refuted_cache_spelling : exists p a b,
@@ -166,6 +160,5 @@ Print Assumptions C17_refuted_alias_alias.
 Print Assumptions C17_refuted_callable_class.
 Print Assumptions C17_refuted_raw_generic.
 Print Assumptions C17_refuted_spelling_subscripted.
-Print Assumptions C17_refuted_stdlib_none_first.
 Print Assumptions C17_refuted_cache_spelling.
 Print Assumptions C17_refuted_union_by_name.
